@@ -276,6 +276,25 @@ def check_orbital_semantics(ctx):
             return None
         obligation("R4", f"restricted without occupations: assigning occs{side} reads back as assigned", W("occs" + side, True), f)
 
+    for side in ("a", "b"):
+        def f(side=side):
+            # the caller's array is changed in place after the assignment (a recycled buffer, a view of another object)
+            for label, make in (("restricted without occupations", lambda: res(False)), ("restricted with occupations", lambda: res(True)), ("unrestricted", lambda: unres(3, 3))):
+                r = make()
+                if label == "restricted without occupations":
+                    r.fields["occs"] = None
+                    r.fields["occs_aminusb"] = None
+                ev = fresh()
+                x = sym_array("x", (3,))
+                assigned = x.copy()
+                ev.set(r, "occs" + side, x)
+                x[0] = Sym.atom("later")
+                got = fresh().get(r, "occs" + side)
+                if not _eq(got, assigned):
+                    return f"{label}: after `mo.occs{side} = x; x[0] = later` occs{side} reads back as {str(np.asarray(got, dtype=object).tolist())[:80]}: the object keeps the caller's array, the paired fields no longer move together"
+            return None
+        obligation("R4", f"assigning occs{side} stores the values, not the caller's array (a later in-place change of that array does not reach the object)", W("occs" + side, True), f)
+
     # sequences of two assignments over a small domain that includes alpha == beta and integer spin sums
     VEC = [[1.0, 0.5, 0.0], [1.0, 1.0, 0.0], [0.75, 0.5, 0.25], [1.0, 0.0, 0.0]]
 
